@@ -178,8 +178,10 @@ def run_gm(case):
         x = big[::2]
         alpha = np.float64(alpha)
     gradf = lambda v: M.conj().T @ (M @ v - y)               # noqa: E731
+    # (the flag as a NumPy boolean - e.g. the result of a comparison - in half of the cases)
+    accflag = np.bool_(case["acc"]) if sum(case["rs"]) % 2 else bool(case["acc"])
     alg = sp.alg.GradientMethod(gradf, x, alpha, proxg=sigpy_prox(g, [n]),
-                                accelerate=case["acc"], max_iter=case["iters"], tol=0)
+                                accelerate=accflag, max_iter=case["iters"], tol=0)
     d0 = float(np.sum(np.abs(x0 - xs) ** 2))
     Fprev = OPT.objective(M, y, g, x0)
     k = 0
@@ -297,11 +299,19 @@ def pdhg_setup(case, rng, g=None, M=None, y=None):
         M, y = lsq_instance(rng, m, n, cplx, "well")
     nA = float(np.linalg.norm(M, 2))
     frac = case.get("frac", 0.9)
+    intsteps = (case.get("steps", "scalar") == "scalar" and frac == 1.0
+                and sum(case.get("rs", [0])) % 3 == 0)
+    if intsteps:
+        # ||A|| = 1 and the step sizes 0.5 and 2, the dual one handed over as an integer
+        M = M / nA
+        nA = 1.0
     if case.get("steps", "scalar") == "scalar":
         r = case.get("ratio", 1.0)
         tau = float(np.sqrt(frac) / nA * r)
         sigma = float(np.sqrt(frac) / nA / r)
-        Tv, Sv = np.full(n, tau), np.full(m, sigma)
+        if intsteps:
+            tau, sigma = 0.5, 2
+        Tv, Sv = np.full(n, float(tau)), np.full(m, float(sigma))
     else:
         Tv = 10 ** rng.uniform(-0.5, 0.5, n)
         Sv = 10 ** rng.uniform(-0.5, 0.5, m)
